@@ -120,6 +120,8 @@ def _wrun(arg):
                     dict(kind='shard-crash', shard=shard, tier=tier,
                          exc=type(e).__name__))
         out = r.pack()
+    for v in out['violations']:
+        v['shard'] = dict(shard=shard, tier=tier)
     out['idx'] = idx
     out['wall'] = time.time() - t0
     return out
@@ -145,8 +147,8 @@ def write_replay(pid, v):
     d = os.path.join(VERIF, 'replays', pid)
     os.makedirs(d, exist_ok=True)
     blob = json.dumps(dict(property=pid, key=v['key'], msg=v['msg'],
-                           witness=v['witness']), indent=1, sort_keys=True,
-                      default=str)
+                           witness=v['witness'], shard=v.get('shard')),
+                      indent=1, sort_keys=True, default=str)
     h = hashlib.sha1(blob.encode()).hexdigest()[:12]
     path = os.path.join(d, h + '.json')
     with open(path, 'w') as f:
@@ -209,6 +211,20 @@ def main(argv=None):
             if hasattr(mod, 'worker_init'):
                 mod.worker_init()
             r = mod.replay(wit)
+            if not r['violates'] and w.get('shard'):
+                # the violation may need what the explorer did earlier in the
+                # same slice of the space (a stale cache, a remembered value):
+                # re-walk that slice and look for the same root-cause key
+                sh = w['shard']
+
+                def tup(x):
+                    return tuple(tup(i) for i in x) if isinstance(x, list) else x
+                res = mod.run_shard(tup(sh['shard']), sh['tier'])
+                hit = [v for v in res.violations if v['key'] == w.get('key')]
+                r = dict(violates=bool(hit), detail='witness alone does not violate; '
+                         're-walking its shard %s the same key: %s' % (
+                             'reproduces' if hit else 'does NOT reproduce',
+                             hit[0]['msg'][:500] if hit else ''))
         real_out.write('REPLAY property=%s key=%s violates=%s\n%s\n' % (
             pid, w.get('key'), r['violates'], r.get('detail', '')))
         real_out.flush()
